@@ -5,6 +5,7 @@ CONSTANTS
   RestartRule = "stop_old"
   PortRule = "opened"
   ShutdownRule = "guarded"
+  TeardownOrder = "responder_first"
 INVARIANT OneResponder
 INVARIANT AnswersTrue
 CHECK_DEADLOCK FALSE
